@@ -19,7 +19,8 @@ End Mask.
 
 Section Trace.
 Variable R : comRingType.
-Definition trace_fwd (n : nat) (x : seq R) : R := \sum_(k < n) x`_(k * n.+1).
+(* executable sum (Sums.sumn_f; sumn_fE: = \sum_(k < n)) so that vm_compute evaluates it *)
+Definition trace_fwd (n : nat) (x : seq R) : R := sumn_f n (fun k => x`_(k * n.+1)).
 (* pb_trace: xbar += ybar * I *)
 Definition pb_trace (n : nat) (ybar : R) : seq R := pb_diag n (nseq n ybar).
 End Trace.
